@@ -2,6 +2,7 @@ package atroll
 
 import (
 	"fmt"
+	"math"
 	"strings"
 
 	"verifh/atrun"
@@ -32,26 +33,30 @@ type Delivery struct {
 
 // Plan is a generated case before it is turned into an engine scenario.
 type Plan struct {
-	Name     string           `json:"name"`
-	Stream   string           `json:"stream"` // c01 | c10fault | c10repeat | c10marker | c09 | corrupt
-	Seed     uint64           `json:"seed"`
-	Index    int              `json:"index"`
-	Config   atrun.Config     `json:"config"`
-	Tables   []*Table         `json:"tables"`
-	Init     []string         `json:"init"` // INSERT statements of the initial rows
-	InitRows map[string][]Row `json:"init_rows"`
-	Branches []Branch         `json:"branches"`
-	Foreign  []Foreign        `json:"foreign,omitempty"`
-	Corrupt  int              `json:"corrupt"` // -1 or the branch whose rollback_info is overwritten
-	Deliver  []Delivery       `json:"deliver"`
-	Marker   bool             `json:"marker,omitempty"` // deliver the rollback of branch 0 between its registration and its flush
+	Name        string           `json:"name"`
+	Stream      string           `json:"stream"` // c01 | c10fault | c10repeat | c10marker | c09 | corrupt
+	Seed        uint64           `json:"seed"`
+	Index       int              `json:"index"`
+	Config      atrun.Config     `json:"config"`
+	Tables      []*Table         `json:"tables"`
+	Init        []string         `json:"init"` // INSERT statements of the initial rows
+	InitRows    map[string][]Row `json:"init_rows"`
+	Branches    []Branch         `json:"branches"`
+	Foreign     []Foreign        `json:"foreign,omitempty"`
+	Corrupt     int              `json:"corrupt"` // -1 or the branch whose rollback_info is overwritten
+	Deliver     []Delivery       `json:"deliver"`
+	Marker      bool             `json:"marker,omitempty"`       // deliver the rollback of branch 0 between its registration and its flush
+	MarkerN     int              `json:"marker_n,omitempty"`     // ... that many times (1..3)
+	ReportFails bool             `json:"report_fails,omitempty"` // marker stream: every BranchReport of the late phase one fails (transport)
 }
 
 var names = []string{"ann", "bob", "cy", "dee", "eve", "flo", "gus", "hal"}
 
 func genTable(r *hutil.Rng, name string) *Table {
 	t := &Table{Name: name}
-	switch r.Intn(6) {
+	switch r.Intn(8) {
+	case 6, 7: // two character key columns: joined key texts that collide unless the separator is unambiguous
+		t.Keys = []Col{{Name: "k1", Typ: "VARCHAR"}, {Name: "k2", Typ: "VARCHAR"}}
 	case 0: // auto-increment single key
 		t.Keys = []Col{{Name: "id", Typ: "BIGINT", AutoInc: true}}
 	case 1:
@@ -68,33 +73,85 @@ func genTable(r *hutil.Rng, name string) *Table {
 	n := 1 + r.Intn(5)
 	for i := 0; i < n; i++ {
 		c := Col{Name: fmt.Sprintf("c%d", i+1)}
-		switch r.Intn(3) {
+		switch r.Intn(6) {
 		case 0:
 			c.Typ = "INT"
 		case 1:
 			c.Typ = "BIGINT"
+		case 2:
+			c.Typ = "DOUBLE"
+		case 3:
+			c.Typ = "TINYINT"
 		default:
 			c.Typ = "VARCHAR"
 		}
 		c.Nullable = r.Chance(1, 2)
 		t.Cols = append(t.Cols, c)
 	}
+	if len(t.Keys) == 2 && t.Keys[0].Typ == "VARCHAR" {
+		// a column to select many rows by (the keys are character strings)
+		t.Cols[len(t.Cols)-1] = Col{Name: t.Cols[len(t.Cols)-1].Name, Typ: "INT"}
+	}
 	return t
 }
+
+var doubles = []float64{500, 0.5, 1000000.01, 1000000.02, 3.25, -17.125, 1e15 + 0.5, 123456789.123, 0.1, 2}
 
 func genVal(r *hutil.Rng, c Col) Val {
 	if c.Nullable && r.Chance(1, 5) {
 		return vNull()
 	}
-	if c.Typ == "VARCHAR" {
+	switch c.Typ {
+	case "VARCHAR":
+		if r.Chance(1, 6) {
+			return vStr([]string{"ann1 ", "Ann1", "a_b", "x_##$$_y", "p,q;r:s", ""}[r.Intn(6)])
+		}
 		return vStr(names[r.Intn(len(names))] + fmt.Sprint(r.Intn(10)))
+	case "DOUBLE":
+		if r.Chance(1, 2) {
+			return vFloat(doubles[r.Intn(len(doubles))])
+		}
+		return vFloat(float64(r.Intn(4000)-1000) / 8)
+	case "BIGINT":
+		if r.Chance(1, 4) { // beyond the integers a float64 can tell apart
+			return vInt([]int64{1 << 53, 1 << 60, 1 << 62, -(1 << 55)}[r.Intn(4)] + int64(r.Intn(4)))
+		}
 	}
 	return vInt(int64(r.Intn(60)) - 10)
 }
 
+// a value next to v that coarse comparisons confuse with it
+func nearVal(r *hutil.Rng, c Col, v Val) (Val, bool) {
+	switch {
+	case v.K == "float":
+		f := v.float()
+		if r.Chance(1, 2) {
+			return vFloat(math.Nextafter(f, math.Inf(1))), true
+		}
+		return vFloat(math.Nextafter(f, math.Inf(-1))), true
+	case v.K == "int" && c.Typ == "BIGINT":
+		return vInt(v.int() + int64(1-2*r.Intn(2))), true
+	case v.K == "str" && v.V != "":
+		switch r.Intn(3) {
+		case 0:
+			return vStr(v.V + " "), true
+		case 1:
+			return vStr(strings.ToUpper(v.V[:1]) + v.V[1:]), strings.ToUpper(v.V[:1]) != v.V[:1]
+		}
+		return vStr(strings.TrimRight(v.V, " ")), strings.TrimRight(v.V, " ") != v.V
+	}
+	return v, false
+}
+
+// pairs of character keys whose joined texts collide under a naive separator
+var keyPairs = [][2]string{{"a", "b_c"}, {"a_b", "c"}, {"x", "y_##$$_z"}, {"x_##$$_y", "z"}, {"p,q", "r"}, {"p", "q,r"}, {"eu", "west_db"}, {"eu_west", "db"}}
+
 // key number i of a table (deterministic, distinct for distinct i)
 func keyOf(t *Table, i int) []Val {
 	var k []Val
+	if len(t.Keys) == 2 && t.Keys[0].Typ == "VARCHAR" && t.Keys[1].Typ == "VARCHAR" && i >= 1 && i <= len(keyPairs) {
+		return []Val{vStr(keyPairs[i-1][0]), vStr(keyPairs[i-1][1])}
+	}
 	for j, c := range t.Keys {
 		if c.Typ == "VARCHAR" {
 			k = append(k, vStr(fmt.Sprintf("%s%d", names[(i+j)%len(names)], i)))
@@ -186,6 +243,7 @@ type genCtx struct {
 	nrows  map[string]int // keys 1..nrows exist initially; fresh keys start above
 	fresh  map[string]int
 	ranges bool // range conditions allowed (no foreign writer that could be hit by them)
+	rows   map[string][]Row
 }
 
 func (g *genCtx) genCond(t *Table, own func(i int) bool) *Cond {
@@ -202,11 +260,14 @@ func (g *genCtx) genCond(t *Table, own func(i int) bool) *Cond {
 	}
 	intCols := []int{}
 	for i, c := range t.Cols {
-		if c.Typ != "VARCHAR" {
+		if c.Typ == "INT" || c.Typ == "TINYINT" {
 			intCols = append(intCols, i)
 		}
 	}
 	k := r.Intn(10)
+	if g.ranges && len(t.Keys) == 2 && t.Keys[0].Typ == "VARCHAR" && len(intCols) > 0 && r.Chance(1, 2) {
+		return &Cond{Kind: "ge", Col: intCols[len(intCols)-1], Lo: -1000} // all rows: images whose joined key texts may collide
+	}
 	if k >= 5 && k < 7 && len(t.Keys) == 1 {
 		c := &Cond{Kind: "pkin"}
 		for j := 0; j < 1+r.Intn(3); j++ {
@@ -223,6 +284,9 @@ func (g *genCtx) genCond(t *Table, own func(i int) bool) *Cond {
 			col = intCols[r.Intn(len(intCols))]
 		}
 		lo := int64(r.Intn(12)) - 2
+		if r.Chance(1, 3) {
+			return &Cond{Kind: "ge", Col: col, Lo: -1000} // every row with a value there
+		}
 		if r.Chance(1, 2) {
 			return &Cond{Kind: "ge", Col: col, Lo: lo}
 		}
@@ -274,13 +338,16 @@ func (g *genCtx) genStmt(t *Table, own func(i int) bool, explicit bool) Stmt {
 			}
 			seen[ci] = true
 			c := t.Cols[ci]
-			if c.Typ != "VARCHAR" && r.Chance(1, 3) {
+			if (c.Typ == "INT" || c.Typ == "BIGINT") && r.Chance(1, 3) {
 				n := int64(1 + r.Intn(5))
 				s.Set = append(s.Set, SetItem{Col: ci, Op: "inc", N: n})
 				sets = append(sets, fmt.Sprintf("%s = %s + %d", c.Name, c.Name, n))
 				continue
 			}
 			v := genVal(r, c)
+			if rows := g.rows[t.Name]; len(rows) > 0 && r.Chance(1, 2) {
+				v = rows[r.Intn(len(rows))].Vals[ci] // what some (perhaps matched) row already holds: that part of the image is unchanged
+			}
 			s.Set = append(s.Set, SetItem{Col: ci, Op: "val", V: v})
 			if r.Chance(1, 2) || v.K == "null" {
 				sets = append(sets, c.Name+" = "+v.lit())
@@ -345,7 +412,7 @@ func genPlan(r *hutil.Rng, stream string, seed uint64, idx int) *Plan {
 	if r.Chance(1, 4) {
 		nt = 2
 	}
-	g := &genCtx{r: r, nrows: map[string]int{}, fresh: map[string]int{}}
+	g := &genCtx{r: r, nrows: map[string]int{}, fresh: map[string]int{}, rows: map[string][]Row{}}
 	withForeign := stream == "c01" && r.Chance(1, 2)
 	g.ranges = !withForeign
 	p.InitRows = map[string][]Row{}
@@ -372,6 +439,7 @@ func genPlan(r *hutil.Rng, stream string, seed uint64, idx int) *Plan {
 			rows = append(rows, row)
 		}
 		p.InitRows[t.Name] = rows
+		g.rows[t.Name] = rows
 		if n > 0 {
 			q, _ := insertSQL(t, rows, false, true)
 			p.Init = append(p.Init, q)
@@ -445,6 +513,8 @@ func genPlan(r *hutil.Rng, stream string, seed uint64, idx int) *Plan {
 		p.Deliver = []Delivery{{Branch: 0, Fault: -1}} // the driver expands it: one plan per fault index
 	case "c10marker":
 		p.Marker = true
+		p.MarkerN = 1 + r.Intn(3)
+		p.ReportFails = r.Chance(1, 6)
 		p.Deliver = []Delivery{{Branch: 0, Fault: -1}}
 	case "corrupt":
 		p.Corrupt = 0
